@@ -346,6 +346,8 @@ func c10upload(ev *evid.Rec) func(rt *rapid.T) {
 		}
 		target := rapid.SampledFrom([]string{"root", "Uploads"}).Draw(rt, "target")
 		own := rapid.IntRange(0, 3).Draw(rt, "ownroot") == 0
+		rsrcOf := rapid.SliceOfN(rapid.SampledFrom([]int{0, 0, 0, 1, 2, 700}), 8, 8).Draw(rt, "rsrcForks") // per item: 0 = two forks, n = resource fork of n-1 bytes
+		preserve := rapid.Bool().Draw(rt, "preserve")
 		cutAt, wasCut := -1, false
 		if rapid.IntRange(0, 2).Draw(rt, "cutFirst") == 0 {
 			streamed := 0
@@ -354,7 +356,7 @@ func c10upload(ev *evid.Rec) func(rt *rapid.T) {
 			}
 			cutAt = rapid.IntRange(0, 16+streamed).Draw(rt, "cutAt")
 		}
-		inWorld(rt, hlsim.Options{Agreement: "a", Accounts: []hlsim.AccountSpec{acct("admin", "Admin", "adminpw", allAccess)}}, func(rt *rapid.T, w *hlsim.World) {
+		inWorld(rt, hlsim.Options{Agreement: "a", PreserveResourceForks: preserve, Accounts: []hlsim.AccountSpec{acct("admin", "Admin", "adminpw", allAccess)}}, func(rt *rapid.T, w *hlsim.World) {
 			base := w.FileRoot
 			if own {
 				base = ownRoot(rt, w, acct("admin", "Admin", "adminpw", allAccess))
@@ -384,6 +386,11 @@ func c10upload(ev *evid.Rec) func(rt *rapid.T) {
 			var items []hlsim.UploadItem
 			for _, it := range all {
 				u := hlsim.UploadItem{IsDir: it.dir, Data: it.data}
+				if !it.dir && rsrcOf[len(items)%len(rsrcOf)] > 0 {
+					// the client streams a resource fork as well (the server keeps it or not, depending on its configuration;
+					// either way the items that follow must arrive)
+					u.Rsrc = bytes.Repeat([]byte{'r'}, rsrcOf[len(items)%len(rsrcOf)]-1)
+				}
 				for _, p := range it.path {
 					u.Path = append(u.Path, []byte(p))
 				}
@@ -454,11 +461,29 @@ func c10upload(ev *evid.Rec) func(rt *rapid.T) {
 			if fmt.Sprint(tr.Actions) != fmt.Sprint(expect) {
 				rt.Fatalf("folder upload: server answered %v, expected %v for items %s (pre-seeded: %v, earlier upload cut: %v)", tr.Actions, expect, itemNames(all), seed, wasCut)
 			}
-			if d := sameItems(readTree(dst), all); d != "" {
+			onDisk := readTree(dst)
+			if preserve {
+				// the fork side files the server keeps next to each file are not entries of the tree
+				kept := onDisk[:0]
+				for _, it := range onDisk {
+					if n := it.path[len(it.path)-1]; !strings.HasPrefix(n, ".info_") && !strings.HasPrefix(n, ".rsrc_") {
+						kept = append(kept, it)
+					}
+				}
+				onDisk = kept
+			}
+			if d := sameItems(onDisk, all); d != "" {
 				rt.Fatalf("folder upload: resulting tree differs from the streamed tree: %s (pre-seeded: %v, earlier upload cut: %v at %d)", d, seed, wasCut, cutAt)
 			}
-			// round trip: download what was uploaded
-			downloadFolder(rt, w, c, "Up", path, kids, func(int, int) (int, int) { return 1, 0 })
+			// round trip: download what was uploaded (files with stored forks are outside the property's quantifier: skipped
+			// when the server kept a resource fork for some item)
+			storedFork := false
+			for _, u := range items {
+				storedFork = storedFork || (preserve && u.Rsrc != nil)
+			}
+			if !storedFork && !preserve {
+				downloadFolder(rt, w, c, "Up", path, kids, func(int, int) (int, int) { return 1, 0 })
+			}
 		})
 		nd, f := hasNested(kids)
 		cl := "uncut"
